@@ -52,7 +52,7 @@ RULE = ("a handshake that FAILS although a session was offered is accepted only 
         "version/suite); a tampered ticket must give a silent full handshake. Seeded generator (VERIF_SEED): 28 fixed histories pinning each clause of the statement (same config resumes in GM/auto/TLS 1.0-1.2, "
         "rotation keeping/dropping the old key, suite removed, suite not offered, ClientAuth tightened/loosened, untrusted stored certificate, "
         "tickets disabled and re-enabled, LRU eviction with capacity 1..2, tickets travelling between two configurations sharing a key, "
-        "forged client-side version/suite, tampered ticket, ECDHE-only offers, protocol mismatch), 27 re-issue histories with client certificates, 28 resumption histories at TLS 1.0/1.1/1.2 over 14 version/suite pairs on plain-TLS and auto-switch servers + random histories of 2..6 connections "
+        "forged client-side version/suite, tampered ticket, ECDHE-only offers, protocol mismatch), 27 re-issue histories with client certificates, the 56-history full-resume-resume matrix (explicit suite list x every ClientAuth policy x client certificate / none x GMSSL-only, auto-switch, TLS 1.0-1.2) on which the must-resume clause of the predicate bites, 28 resumption histories at TLS 1.0/1.1/1.2 over 14 version/suite pairs on plain-TLS and auto-switch servers + random histories of 2..6 connections "
         "over 1..2 server configurations with rotations, suite/ClientAuth/disable changes, client kinds g/t10/t11/t12, client certificates "
         "none/trusted/forged-issuer, cache capacity 1..3, 1..4 cache keys; X: every byte position and every truncation length of a GMSSL-CBC "
         "ticket replayed end to end, every 5th position and every 7th truncation for TLS 1.2, TLS 1.0, auto-switch GM/TLS 1.2/TLS 1.1 tickets plus random samples; S: all 255 values at every position and all "
